@@ -242,13 +242,19 @@ def stepOracle (st : St) (ws : List String) (obs : Json) : St × List String :=
     let used := jpath pca ["children", h, "used_keys", key]
     let revoked := jstr used == "revoked"
     if !stillPublished && revoked then [] else
-    let mapped := !(jfields (jpath pca ["children", h, "rcn_map"])).isEmpty
-    [(if mapped then "RevokeRequestEffective/mapped-class-name" else "RevokeRequestEffective", key)]
+    let rmap := jfields (jpath pca ["children", h, "rcn_map"])
+    let mapped := !rmap.isEmpty
+    -- a mapping whose parent-side class does not exist shadows the name the child uses
+    let toMissing := rmap.any fun (nameInParent, _) => jisNull (jpath pca ["resources", nameInParent])
+    [(if toMissing then "RevokeRequestEffective/mapping-to-missing-class"
+      else if mapped then "RevokeRequestEffective/mapped-class-name" else "RevokeRequestEffective", key)]
   let p8 := p8k.map (·.1)
   let ignored := dedupS (st.ignoredRevokes ++ p8k.map (·.2))
+  let ignoredMissing := dedupS (st.ignoredMissing ++
+    (p8k.filter (·.1 == "RevokeRequestEffective/mapping-to-missing-class")).map (·.2))
   let wait := wait.filter fun (h, rcn, _) => !(finished.contains (h, rcn)) && !(jisNull (jpath obs ["cas", h]))
-  let p9 := rpPreds obs objs (fun h => inSync h && !(syncPending obs h)) ignored
-  ({ st with seen, revokeWait := wait, unsynced, ignoredRevokes := ignored }, dedupS (p1 ++ p2 ++ p3 ++ p4 ++ p5 ++ p6 ++ p7 ++ p8 ++ p9))
+  let p9 := rpPreds obs objs (fun h => inSync h && !(syncPending obs h)) ignored ignoredMissing
+  ({ st with seen, revokeWait := wait, unsynced, ignoredRevokes := ignored, ignoredMissing }, dedupS (p1 ++ p2 ++ p3 ++ p4 ++ p5 ++ p6 ++ p7 ++ p8 ++ p9))
 
 /-- Which property an oracle predicate belongs to. -/
 def propsOf (pred : String) : List String :=
